@@ -124,6 +124,15 @@ CHECKS["C25"] = dict(engine="tlc+vh", level="model_checking", ref="4.14", techni
                      text="Both sentences of the property are decided by error-delta: the real values must equal the reference, or equal exactly what the faithful transcription predicts (recorded findings); second windows on a reused aggregator must equal the same stream on a fresh one.",
                      note="Trusted: TLC. Bounded: sequences over {A,B,C} up to length 5 (thorough 8), 4 single queries and 3 pairs, aggregator API level.")
 
+CTX_NOTE = ("Trusted: TLC; the fence technique (an acknowledged barrier with a reserved id proves the earlier message was processed). Bounded: 2 contexts, 3 inputs, queue capacity 1..2, "
+            "every schedule of the faithful model up to 12 steps (quick: a seed-dependent ~250 of them).")
+CHECKS["C26"] = dict(engine="tlc+vh", level="model_checking", ref="4.15", technique="TLA+ spec (Contexts.tla) model-checked with TLC (ideal vs faithful switches); every TLC schedule replayed deterministically on real ContextRuntimes whose channels the harness owns; error-delta on the lost-event set; plus the real ContextOrchestrator under a burst against the context-free engine",
+                     text="Delivered holds on the blocking design and fails on the faithful try_send model (recorded finding); on the real runtimes each schedule must lose exactly the events the faithful model predicts and nothing else; per-stream output sequences of a burst through the orchestrator must equal the context-free run.",
+                     note=CTX_NOTE)
+CHECKS["C27"] = dict(engine="tlc+vh", level="model_checking", ref="4.15", technique="TLA+ spec (Contexts.tla: ConsistentCut) model-checked with TLC; schedules with a coordinated checkpoint replayed on real ContextRuntimes; snapshot positions from the real CheckpointAcks compared with the faithful model (error-delta)",
+                     text="ConsistentCut holds with aligned barriers and fails with barriers injected into every queue (recorded finding); every replayed schedule's real snapshot positions (events_processed of each acknowledged engine checkpoint) must be those the faithful model predicts.",
+                     note=CTX_NOTE)
+
 NOT_APPLICABLE = {
     "C41": "parser totality over arbitrary strings: no state/transition system to specify; a TLA+ model would only enumerate token strings (fuzzing under another name)",
     "C43": "LSP handler robustness over arbitrary text/cursor: per-call robustness, no protocol state in the property; outside model-based verification",
